@@ -386,6 +386,11 @@ def make_env_from(b):
                      latency=b.latency, steps_delay=case.get("delay", 0),
                      episode_length=case.get("episode_length"), sampling_span=case.get("sampling_span"),
                      fit_transformers=(case.get("state", ["rec"])[0] == "library"))
+    if case.get("readd_timesteps"):
+        # The user still holds the transmitter and registers timesteps again after the environment was built. They are
+        # all already on the grid (duplicates are in the domain, C04), so whether late additions are picked up at
+        # the next reset or not, the set of timesteps - and the environment's latency - are what they were.
+        tr.add_timesteps([stamp(case, b.grid[i % len(b.grid)]) for i in case["readd_timesteps"]])
     return env
 
 
